@@ -404,6 +404,11 @@ class Init(Contract):
     def apply(self, eng, st, selfv, args, kwargs, site):
         payload = args[0] if args else kwargs.get("payload")
         labelmsm = args[1] if len(args) > 1 else kwargs.get("labelmsm", 1)
+        # the message is a function of (payload, label option) and of nothing else: a caller that hands the constructor anything more
+        # (the frame's checksum bytes, the reader, a flag) relies on behaviour this contract does not give it
+        extra = sorted(set(kwargs) - {"payload", "labelmsm"})
+        eng.oblige(f"{self.qualname}.pre.only_payload_and_label_option_are_passed", st, z3.BoolVal(len(args) <= 2 and not extra),
+                   kind="pre", site=site, note=f"extra arguments: {extra or len(args) - 2}")
         if payload is None:
             return [(st, RaiseExc(exc("RTCMMessageError"), "Payload must be specified"))]
         outs = []
